@@ -158,6 +158,68 @@ def normalisation_rule(check, P):
     return n
 
 
+FIRST_ROWS = [  # first line of a data file -> is it a row of numbers (must be loaded) or a header (may be skipped)
+    ("-10.0,-10.0,1.5", True), ("+5,0,2", True), ("1e-3,2,3", True), ("10,20,0.5", True), (".5,1,2", True), ("0,0,0", True),
+    ("X,Y,Z", False), ("x [mm],y [mm],z [mm]", False),
+]
+
+
+def loading_rule(check, P):
+    """R7: every row of numbers in a CSV/TSV file becomes a stored sample (numpy.loadtxt is not told to skip data)."""
+    from ..interp import Interp, Frame, AbsRaise
+    f = P.func("SparseHeightMap.from_path")
+    ci = P.cls("SparseHeightMap")
+    n = 0
+    for line, is_data in FIRST_ROWS:
+        I = Interp(P)
+        I.ext_quiet = lambda tag: "logger" in tag
+        seen = []
+
+        def ext_result(I_, callee, args, kwargs, node, line=line):
+            t = I_.tag(callee)
+            if t.endswith(".readline"):
+                return Const(line + "\n")
+            if t.endswith(".readlines"):
+                return I_.alloc(AList([Const(line + "\n"), Const("1,2,3\n")]))
+            if t.endswith(".read"):
+                return Const(line + "\n1,2,3\n")
+            if isinstance(callee, ExtV) and callee.name == "numpy.loadtxt":
+                seen.append({k: v for k, v in kwargs.items() if k != "**"})
+                return Unk("loaded-rows", "array")
+            return None
+        I.ext_result = ext_result
+        I.intrinsics["SparseHeightMap"] = lambda I_, fv, a, k, node: Unk("map", "object")
+
+        def entry(I_, _):
+            I_.frames = [Frame(None, f.module, {}, qualname="<entry>")]
+            try:
+                return I_.call_function(f, [ClassV(ci), Const("probe.csv")], {}, f.node)
+            finally:
+                I_.frames = []
+        before = len(seen)
+        for path in I.explore(lambda I_: None, entry, max_dev=None, max_paths=300):
+            n += 1
+        calls_ = seen[before:]
+        if not calls_:
+            check.undecided("R7", f"first row {line!r}: from_path does not load the file with numpy.loadtxt")
+            continue
+        skips = set()
+        for kw in calls_:
+            sk = kw.get("skiprows", Const(0))
+            skips.add(sk.v if isinstance(sk, Const) else ("?" if not isinstance(sk, Num) or not sk.p.is_const() else int(sk.p.const_value())))
+            for bad in ("max_rows", "usecols"):
+                if bad in kw:
+                    skips.add(f"{bad}=...")
+        if is_data and skips == {0}:
+            check.ok("R7", f"first row {line!r} (numbers): loaded, no row skipped")
+        elif is_data:
+            check.violation("R7", "sparse:data-row-skipped", f"a file whose first row is {line!r} is loaded with skiprows/limits {sorted(map(str, skips))}: "
+                            "a row of numbers is dropped, the stored sample is lost and the map returns 0 or a neighbour's height there", [])
+        else:
+            check.ok("R7", f"first row {line!r} (titles): skiprows {sorted(map(str, skips))}")
+    return n
+
+
 def sparse_rules(check, P):
     W, evs, cpath = construction_events(P, "SparseHeightMap")
     I = W.I
@@ -450,7 +512,8 @@ def run(check, repo, tier):
     check.rule("R4", "tolerance filter: first kept, keep iff |z - z_lastkept| >= tolerance, last appended once")
     P = Program(repo)
     check.rule("R6", "raster maps store sample / full scale of the sample type (65535 for uint16, 255 otherwise), chosen by the dtype alone")
-    n = raster_rules(check, P) + sparse_rules(check, P) + normalisation_rule(check, P)
+    check.rule("R7", "loading: every row of numbers of a CSV/TSV file becomes a stored sample (first rows starting with a sign, a dot or an exponent are data)")
+    n = raster_rules(check, P) + sparse_rules(check, P) + normalisation_rule(check, P) + loading_rule(check, P)
     for cls in ("RasterHeightMap", "SparseHeightMap"):
         n += pairing_and_filter(check, P, cls, 6 if tier == "thorough" else 4)
     check.analysed = {"program": P.stats(), "abstract_paths": n, "classes": ["RasterHeightMap", "SparseHeightMap"]}
